@@ -414,9 +414,13 @@ func (s *configurationStore) Watch(ctx context.Context, ch chan<- configapi.Conf
 						log.Error(err)
 						return
 					}
-					ch <- configapi.ConfigurationEvent{
+					replayed := configapi.ConfigurationEvent{
 						Type:          configapi.ConfigurationEvent_REPLAYED,
 						Configuration: *configuration,
+					}
+					select {
+					case ch <- replayed:
+					case <-ctx.Done():
 					}
 				}
 			} else {
@@ -445,9 +449,13 @@ func (s *configurationStore) Watch(ctx context.Context, ch chan<- configapi.Conf
 						log.Error(err)
 						return
 					}
-					ch <- configapi.ConfigurationEvent{
+					replayed := configapi.ConfigurationEvent{
 						Type:          configapi.ConfigurationEvent_REPLAYED,
 						Configuration: *configuration,
+					}
+					select {
+					case ch <- replayed:
+					case <-ctx.Done():
 					}
 				}
 			}
@@ -456,7 +464,10 @@ func (s *configurationStore) Watch(ctx context.Context, ch chan<- configapi.Conf
 		for {
 			select {
 			case event := <-eventCh:
-				ch <- event
+				select {
+				case ch <- event:
+				case <-ctx.Done():
+				}
 			case <-ctx.Done():
 				close(ch)
 				go func() {
